@@ -1,8 +1,8 @@
 (* C19 - reported statistics are true; connection slots do not leak.  Statements only; proofs
-   in IRCP.InvDefs / IRCP.InvStep / IRCP.Reach.  max_users as the true high-water mark and the
-   ISON / USERHOST texts are checked by the correspondence oracle (stats_oracle), level L2. *)
+   in IRCP.InvDefs / IRCP.InvStep / IRCP.Reach / IRCP.HighWater.  The ISON / USERHOST texts are
+   checked by the correspondence oracle (stats_oracle), level L2. *)
 From IRC Require Import Str Wild Glob Parse Reply State Handlers Step.
-From IRCP Require Import InvDefs InvStep Reach.
+From IRCP Require Import InvDefs InvStep Reach HighWater.
 From stdpp Require Import gmap.
 Open Scope N_scope.
 
@@ -47,9 +47,22 @@ Proof.
   split; [exact (Hgone j Hj)|exact (iw_nc w' I')].
 Qed.
 
+(* the maximum reported by LUSERS (265 / 266) is the true high-water mark: it starts at 0, and after
+   every step it is the maximum of its previous value and the current number of registered users
+   (a step changes the population by at most one registration or by removals only), so by
+   induction it is the largest population any moment of the history has seen *)
+Theorem C19_high_water_step : forall w i e w' o cl, Inv w -> hw w -> step cfg verify w i e = Ok (w', o, cl) ->
+  hw w' /\ max_users (sh w') = N.max (max_users (sh w)) (N.of_nat (size (users (sh w')))).
+Proof. exact (step_high_water cfg verify). Qed.
+
+Theorem C19_high_water_dominates : forall w, reachable cfg verify w -> N.of_nat (size (users (sh w))) <= max_users (sh w).
+Proof. exact (reachable_hw cfg verify). Qed.
+
 End C19.
 
 Print Assumptions C19_counters.
 Print Assumptions C19_lusers.
 Print Assumptions C19_limit.
 Print Assumptions C19_slot_freed.
+Print Assumptions C19_high_water_step.
+Print Assumptions C19_high_water_dominates.
